@@ -283,6 +283,7 @@ pub fn doc(path: &str, format: Format, tests: Vec<Test>) -> Doc {
         main: true,
         shell: None,
         raw: None,
+        compact: false,
     }
 }
 
